@@ -163,6 +163,37 @@ def entry_corr(ctx, items):
     return mism
 
 
+PIPELINE_THEOREMS = ["Matid.Props.C01." + t for t in ("pipeline_wellformed", "pipeline_order_ok", "merge_species_invariant", "merge_keeps_atoms_in_range")]
+
+
+def pipeline_corr(ctx, broken, items):
+    """recorded finder histories of real get_clusters runs replayed through the Lean pipeline; items = [(line, clusters, description)]"""
+    import sbc_common as SC
+    terr = common.regen(ctx, ("sbc_rule",))
+    if terr:
+        broken.append(("sbc-rule-translator", terr))
+    ok, info = common.prove(ctx, "MatidProps.C01", PIPELINE_THEOREMS)
+    if not ok:
+        broken.append(("pipeline-proof", info))
+    items = [it for it in items if it[0] is not None]
+    if not items:
+        return
+    try:
+        outs = common.driver([it[0] for it in items])
+    except common.DriverError as e:
+        broken.append(("driver", {"error": str(e)[-800:]}))
+        return
+    mism = []
+    for (line, clusters, desc), o in zip(items, outs):
+        ctx.case(("sbcrun", hash(line) & 0xffffffff), nontrivial=True)
+        ctx.count("pipeline_replays")
+        if not SC.sbcrun_agrees(o, clusters):
+            mism.append({"what": "clusters returned by get_clusters differ from the recorded finder history pushed through merge -> localize -> clean of the model",
+                         "case": desc, "model": o[:300], "real": ";".join(SC.dots(c.indices) for c in clusters)[:300]})
+    if mism:
+        broken.append(("pipeline-correspondence", {"function": "SBC._merge_clusters / _localize_clusters / _clean_clusters", "count": len(mism), "of": len(items), "mismatches": mism[:3]}))
+
+
 ADAPTIVE_THEOREMS = ["Matid.Props.Adaptive." + t for t in ("measured_plus", "measured_minus", "adaptive_close")]
 
 
